@@ -174,6 +174,9 @@ func execute(r *core.Run, c *Case) {
 	r.Eval(1)
 	if p := core.Guard(func() { raw, serr = env.Sign(req) }); p != nil {
 		r.Count("panicked", 1)
+		if classOf(c.Behaviour, c.TSALen) == "good" && validatorOK(c.Validator, c.TSALen) == "good" && c.Roots == "" {
+			r.Violation("valid-timestamp-panicked:"+mtName(c.MT), c.desc()+": Sign panicked although everything is in order: "+p.Value, c)
+		}
 		return
 	}
 	requests, served := tsa.Log()
